@@ -220,13 +220,15 @@ func (s *Server) closeSessions() {
 	}
 }
 
-func (s *Server) conn() *coapNet.UDPConn {
+func (s *Server) conn(ctx context.Context) *coapNet.UDPConn {
 	s.listenMutex.Lock()
 	serverStartedChan := s.serverStartedChan
 	s.listenMutex.Unlock()
 	select {
 	case <-serverStartedChan:
 	case <-s.ctx.Done():
+	case <-ctx.Done():
+		return nil
 	}
 	s.listenMutex.Lock()
 	defer s.listenMutex.Unlock()
